@@ -1,17 +1,15 @@
 use crate::e2e;
+use bugstalker::debugger::variable::dqe::{Dqe, Selector};
 pub fn run(args: &[String]) -> i32 {
-    let bin = e2e::compile("/verif/.scratch/c10", "sigdebuggee", crate::leg_c10::DEBUGGEE, &[], None).unwrap();
-    let mut s = e2e::launch(&bin, &["2".to_string()]).unwrap();
-    s.dbg.set_breakpoint_at_fn("anchor").unwrap();
+    let src = std::fs::read_to_string(&args[0]).unwrap();
+    let bin = e2e::compile("/verif/.scratch/tmp", std::path::Path::new(&args[0]).file_stem().unwrap().to_str().unwrap(), &src, &[], None).unwrap();
+    let mut s = e2e::launch(&bin, &[]).unwrap();
+    let line: u64 = args[1].parse().unwrap();
+    s.dbg.set_breakpoint_at_line(&format!("{}", std::path::Path::new(&args[0]).file_name().unwrap().to_string_lossy()), line).unwrap();
     s.dbg.start_debugee().unwrap();
-    let pid = s.pid_now();
-    for a in args { let sig: i32 = a.parse().unwrap(); unsafe { libc::kill(pid.as_raw(), sig) }; }
-    for _ in 0..12 {
-        let r = s.dbg.continue_debugee_with_reason();
-        println!("cont: {:?}", r.as_ref().map(|r| format!("{r:?}")).map_err(|e| e.to_string()));
-        if matches!(r, Ok(bugstalker::debugger::StopReason::DebugeeExit(_))) || r.is_err() { break; }
+    for name in &args[2..] {
+        let r = s.dbg.read_variable(Dqe::Variable(Selector::by_name(name, true))).map(|v| v.iter().map(|r| format!("{:?}", r.value()).chars().take(160).collect::<String>()).collect::<Vec<_>>());
+        println!("{name} = {:?}", r.map_err(|e| e.to_string()));
     }
-    std::thread::sleep(std::time::Duration::from_millis(50));
-    println!("{}", s.stdout());
     0
 }
